@@ -421,9 +421,17 @@ func reportersReplay(e *env) error {
 					x.bad("quantity-unparsable", "cmd/hranoprovod-cli/internal/report", err.Error())
 					continue
 				}
+				// same rows, amounts monotone in the requested direction; how ties are ordered is not fixed by any
+				// property (only that it is stable from run to run, C05), so ties are compared as sets
 				okq := len(rows) == len(q.want)
+				wantSet := map[string]int64{}
+				for _, r := range q.want {
+					wantSet[w.names[r.Name]] = w.milliQ(r.Qty)
+				}
 				for i := 0; okq && i < len(rows); i++ {
-					okq = rows[i].Name == w.names[q.want[i].Name] && rows[i].Val == w.milliQ(q.want[i].Qty)
+					v, known := wantSet[rows[i].Name]
+					okq = known && v == rows[i].Val && rows[i].Val == w.milliQ(q.want[i].Qty)
+					delete(wantSet, rows[i].Name)
 				}
 				if !okq {
 					x.bad("report-quantity-rows", "cmd/hranoprovod-cli/internal/report", fmt.Sprintf("%v prints %+v, specification predicts %+v (names %q)", q.args, rows, q.want, w.names))
